@@ -208,6 +208,7 @@ type actors struct {
 	// clients constructed before any engine was configured
 	early map[string]core.HTTPRequestDoer
 	id    string
+	n     int // index of the action within the case
 }
 
 func doGet(ctx context.Context, doer core.HTTPRequestDoer, u string) error {
@@ -251,16 +252,70 @@ func (w *world) dummyVP() vc.VerifiablePresentation {
 	}
 }
 
+var nonAlnum = regexp.MustCompile(`[^a-z0-9]`)
+
+// markURL makes the URL of an outbound action unique (a label in front of a *.nuts-verif.nl host, a path element otherwise), so
+// that connection attempts and requests can be attributed to the action that caused them even when a request of an earlier action
+// or of an earlier node arrives late (timeouts under load).
+func markURL(raw, caseID string, idx int) (string, string) {
+	marker := fmt.Sprintf("m%sx%d", nonAlnum.ReplaceAllString(strings.ToLower(caseID), ""), idx)
+	u, err := url.Parse(raw)
+	if err != nil || u.Host == "" {
+		return raw, marker
+	}
+	if strings.HasSuffix(strings.ToLower(u.Hostname()), "nuts-verif.nl") {
+		u.Host = marker + "." + u.Host
+	} else {
+		u.Path = strings.TrimSuffix(u.Path, "/") + "/" + marker
+	}
+	return u.String(), marker
+}
+
 func (w *world) perform(a action, x actors) (res actResult) {
 	res.action = a
 	res.URL = strings.ReplaceAll(a.URL, "{PLAIN}", w.rec.httpAddr)
+	marker := ""
+	if a.Kind == "outbound" {
+		res.URL, marker = markURL(res.URL, x.id, x.n)
+	}
 	w.rec.reset()
 	defer func() {
 		if p := recover(); p != nil {
 			res.Err = fmt.Sprintf("panic: %v", p)
 			res.Verdict = "panic"
 		}
-		res.Dials, res.Requests = w.rec.snapshot()
+		dials, requests := w.rec.snapshot()
+		if a.Kind == "outbound" {
+			// keep what belongs to this action only
+			hostMarked := false
+			target := ""
+			if pu, err := url.Parse(res.URL); err == nil {
+				hostMarked = strings.Contains(strings.ToLower(pu.Host), marker)
+				target = strings.ToLower(pu.Hostname())
+			}
+			for _, d := range dials {
+				h, _, _ := net.SplitHostPort(d)
+				if strings.Contains(strings.ToLower(d), marker) || (!hostMarked && strings.ToLower(h) == target) {
+					res.Dials = append(res.Dials, d)
+				}
+			}
+			for _, q := range requests {
+				if strings.Contains(strings.ToLower(q.Host), marker) || strings.Contains(q.Path, marker) {
+					res.Requests = append(res.Requests, q)
+				}
+			}
+		} else {
+			want := ""
+			if pu, err := url.Parse(res.URL); err == nil {
+				want = pu.Path
+			}
+			res.Dials = dials
+			for _, q := range requests {
+				if a.Kind != "jsonld" || q.Path == want {
+					res.Requests = append(res.Requests, q)
+				}
+			}
+		}
 		if res.Dials == nil {
 			res.Dials = []string{}
 		}
@@ -548,7 +603,8 @@ func (w *world) runAuth(c tcase) result {
 	res.Accepted, res.Phase = true, "running"
 	x := actors{notary: a.ContractNotary(), iam: a.IAMClient(), rp: a.RelyingParty(), strict: c.Vec.Strict}
 	client.StrictMode = c.Vec.Strict // what http.Engine.Configure does in the assembled system
-	for _, act := range c.Acts {
+	for n, act := range c.Acts {
+		x.n = n
 		res.Acts = append(res.Acts, w.perform(act, x))
 	}
 	return res
@@ -585,7 +641,8 @@ func (w *world) runOutbound(c tcase) result {
 	x := actors{strict: c.Vec.Strict, early: early, id: c.ID,
 		iam: iam.NewClient(nil, nil, nil, nil, nil, c.Vec.Strict, 3*time.Second),
 		rp:  oauth.NewRelyingParty(nil, nil, nil, nil, 3*time.Second, &tls.Config{RootCAs: w.rec.pool, MinVersion: tls.VersionTLS12}, c.Vec.Strict)}
-	for _, act := range c.Acts {
+	for n, act := range c.Acts {
+		x.n = n
 		res.Acts = append(res.Acts, w.perform(act, x))
 	}
 	return res
@@ -670,9 +727,9 @@ func (w *world) runSystem(c tcase) (res result) {
 	defDir := filepath.Join(dir, "discovery")
 	_ = os.MkdirAll(defDir, 0700)
 	servicesByURL := map[string]string{}
-	for _, act := range c.Acts {
+	for n, act := range c.Acts {
 		if act.Kind == "outbound" && act.Entry == "discovery-get" {
-			u := strings.ReplaceAll(act.URL, "{PLAIN}", w.rec.httpAddr)
+			u, _ := markURL(strings.ReplaceAll(act.URL, "{PLAIN}", w.rec.httpAddr), c.ID, n)
 			if _, ok := servicesByURL[u]; !ok {
 				sid := fmt.Sprintf("urn:verif:service:%d", len(servicesByURL))
 				servicesByURL[u] = sid
@@ -814,7 +871,8 @@ func (w *world) runSystem(c tcase) (res result) {
 		res.Error = "vdr / vcr / discovery engine not found"
 		return res
 	}
-	for _, act := range c.Acts {
+	for n, act := range c.Acts {
+		x.n = n
 		if act.Kind == "jsonld" && act.Arg == "listed" {
 			act.URL = listed
 		}
